@@ -328,6 +328,10 @@ impl Gen<'_> {
                 this_vals.join(", "),
             );
         }
+        let _ = write!(
+            t,
+            "command Nop {{\n    attributes {{ priority: 1 }}\n    fields {{ tag int }}\n{SEAL_OPEN}    policy {{ finish {{ emit Miss {{ tag: this.tag }} }} }}\n}}\n\n"
+        );
         let key_decl: Vec<String> = s.keys.iter().enumerate().map(|(i, t)| format!("{} {}", key_name(i), ty_text(*t))).collect();
         let _ = write!(
             t,
@@ -543,7 +547,7 @@ fn plan(case: &Case) -> Plan {
                             hits.iter().map(|(k, v)| row(k, v)).collect()
                         }
                     };
-                    let visits_any = !want.is_empty() || unfiltered.is_some();
+                    let visits_any = !want.is_empty();
                     effects.push(OpExp { tag, kind, want, unfiltered });
                     // text
                     if kind == 6 {
@@ -612,9 +616,16 @@ fn plan(case: &Case) -> Plan {
                 }
             }
         }
-        if !published_any {
-            // an action that publishes nothing is C07's business; skip the batch
+        if at.body.is_empty() {
             continue;
+        }
+        if !published_any && expect_ok {
+            // an action that publishes nothing fails with EmptyPerspective (C07's business): make sure
+            // the model's version of this action publishes at least one command
+            let tag = g.next_tag;
+            g.next_tag += 1;
+            let _ = writeln!(at.body, "    publish Nop {{ tag: {tag} }}");
+            effects.push(OpExp { tag, kind: 0, want: vec![Exp::Miss { tag }], unfiltered: None });
         }
         let params: Vec<String> = at.params.iter().enumerate().map(|(i, (t, _))| format!("p{i} {}", ty_text(*t))).collect();
         let name = format!("b{bi}");
@@ -904,9 +915,9 @@ pub fn run(ctx: &Ctx) -> ! {
     );
     rep.explore(
         "long_history",
-        "same, 8-20 actions of 1-3 operations (deep fact-index chains)",
-        || case(8, 20, 3),
-        n / 8,
+        "same, 12-40 actions of 1-3 operations (fact-index chains deeper than MAX_FACT_INDEX_DEPTH = 16, so compaction happens between queries)",
+        || case(12, 40, 3),
+        n / 10,
         check_case,
     );
     rep.finish()
